@@ -296,7 +296,8 @@ def analyse_iter(cx, S, chk, rt, next_path, new_term, notes):
         r_start = [n for n, v in rf.items() if strip(v) == CUR]
         r_line = [n for n, v in rf.items() if strip(v) == CNT]
         r_end = [n for n, v in rf.items() if n not in r_start + r_line and lin(v) is not None and lin_eq(v, newcur) and strip(v)[0] != "call"]
-        r_s = [n for n, v in rf.items() if is_call(strip(v), "index", "get_unchecked", "unwrap")]
+        TR_ = ("trim_end", "trim", "trim_start", "trim_end_matches", "trim_matches", "trim_start_matches")
+        r_s = [n for n, v in rf.items() if is_call(through(v, TR_), "index", "get_unchecked", "unwrap")]
         if not (len(r_start) == 1 and len(r_line) == 1 and len(r_s) == 1):
             notes.append("iter: record fields not recognised (start/lineno/text)")
             return M
@@ -352,6 +353,11 @@ def analyse_iter(cx, S, chk, rt, next_path, new_term, notes):
                           "else the end of the text): the next record then starts inside / beyond its line" % mir.show(end_v)[:160])
             return M
         sv = strip(rf[roles[3]])
+        if is_call(sv, *TR_):
+            chk.violation(R + ".iter", "line-text-trimmed", "a record's text is %s: the line without the whitespace the trim removes. Column and caret are computed on the "
+                          "record's text, so a position inside the trailing whitespace of its line (blanks, tabs, the \\r of a CRLF line, a whitespace-only "
+                          "line) is reported at the trimmed length (text \"foo(  \", position 6 is column 7, not 5)" % mir.show(sv)[:100])
+            return M
         good_s = None
         if is_call(sv, "index") and len(sv[2]) == 2 and strip(sv[2][0]) == strip(SRC):
             rg = strip(sv[2][1])
